@@ -40,7 +40,7 @@ SHARDS = {"quick": 4, "thorough": 16}
 RULE = (
     "(a) complete enumeration, per catalogue operation (17 operations), of (k-th call-out, exception class in {RuntimeError, TypeError, "
     "KeyboardInterrupt, custom BaseException}) for every k up to the dry-run count; (b) Hypothesis histories of 3..20 operations from a "
-    "27-operation alphabet. After each, 15 probes. Non-trivial (a) = the fault fired while jaxtyping held transient state (a context "
+    "29-operation alphabet. After each, 15 probes. Non-trivial (a) = the fault fired while jaxtyping held transient state (a context "
     "pushed, the flatten-mode flag set or a leaf label set; read from the private storage at the moment of the fault, for classification "
     "only); non-trivial (b) = history containing a failing or raising check or a decoration sharing an annotation object; distinct by "
     "(operation, k, exception) resp. operation list."
@@ -631,17 +631,70 @@ def h_name_format():
     jaxtyping.set_array_name_format(old)
 
 
+_SUSPENDED = []
+
+
+def h_generator_none_suspended():
+    """A generator function decorated with jaxtyped(typechecker=None) whose body makes manual checks; it is advanced once and then
+    left suspended (a pipeline stage waiting for its consumer) while the program goes on."""
+    def g(x):
+        assert isinstance(x, Shaped[np.ndarray, "vf12"])
+        yield 1
+        assert isinstance(x, Shaped[np.ndarray, "vf12"])
+        yield 2
+
+    with warnings.catch_warnings():
+        warnings.simplefilter("ignore")
+        gen = jaxtyped(typechecker=None)(g)(np.zeros((3,)))
+    assert next(gen) == 1
+    _SUSPENDED.append(gen)
+
+
+def h_forward_reference_early_call():
+    """Two identical functions are decorated while the name in their (string) annotation does not exist yet; one of them is called
+    once -- well typed -- before the name gets defined.  Afterwards both must treat an ill-typed argument alike: what an earlier
+    call did is unrelated activity."""
+    g = globals()
+    g.pop("VF12_LATER", None)
+    fns = []
+    for _ in range(2):
+        def f(x):
+            return 0
+
+        f.__annotations__ = {"x": "VF12_LATER"}
+        with warnings.catch_warnings():
+            warnings.simplefilter("ignore")
+            fns.append(jaxtyped(typechecker=gc.checker("typeguard"))(f))
+    try:
+        fns[0](np.zeros((2, 2), dtype="float32"))  # the early call
+        g["VF12_LATER"] = Float32[np.ndarray, "2 2"]
+        outcomes = []
+        for fn in fns:
+            try:
+                fn("not an array")
+                outcomes.append("accepted")
+            except TypeCheckError:
+                outcomes.append("TypeCheckError")
+        if outcomes[0] != outcomes[1]:
+            raise Violation("probe", {"history": ["forward-reference-early-call"]},
+                            f"two identically decorated functions with a forward-reference annotation: the one that had been called once before the name "
+                            f"was defined gives {outcomes[0]} on an ill-typed argument, the other one {outcomes[1]}")
+    finally:
+        g.pop("VF12_LATER", None)
+
+
 HISTORY_OPS = {
     "check-pass": h_check_pass, "check-fail": h_check_fail, "check-raise": h_check_raise, "toplevel-check": h_toplevel_check,
     "pytree-pass": h_pytree_pass, "pytree-fail": h_pytree_fail, "pytree-q-misuse": h_pytree_q_misuse, "pytree-unbound-composite": h_pytree_unbound_composite,
     "decorate-shared-typeguard": h_decorate_shared_tg, "decorate-shared-beartype": h_decorate_shared_bt, "decorate-shared-old": h_decorate_shared_old,
     "generator-old-unpickled": h_generator_old_unpickled, "generator-old-inner-outer": h_generator_old_inner_outer, "generator-old-pytree": h_generator_old_pytree, "generator-new-shared": h_generator_new_shared, "generator-old-fresh": h_generator_old_fresh, "generator-old-shared": h_generator_old_shared,
     "resubscribe": h_resubscribe, "pickle": h_pickle, "hook": h_hook, "hook-exception": h_hook_exception, "config-roundtrip": h_config_roundtrip,
+    "generator-none-suspended": h_generator_none_suspended, "forward-reference-early-call": h_forward_reference_early_call,
     "call-ok": h_call_ok, "call-ill": h_call_ill, "call-raises": h_call_raises, "thread-activity": h_thread_activity, "name-format": h_name_format,
 }
 KNOWN_EXCLUDED = {"generator-old-shared"}
 INTERESTING = {"check-fail", "check-raise", "pytree-fail", "pytree-q-misuse", "pytree-unbound-composite", "decorate-shared-typeguard", "decorate-shared-beartype",
-               "decorate-shared-old", "generator-new-shared", "call-ill", "call-raises", "hook-exception"}
+               "decorate-shared-old", "generator-new-shared", "call-ill", "call-raises", "hook-exception", "generator-none-suspended", "forward-reference-early-call"}
 
 
 def reset_shared():
@@ -650,6 +703,11 @@ def reset_shared():
         SHARED._skip_instancecheck = False
     except Exception:
         pass
+    while _SUSPENDED:
+        try:
+            _SUSPENDED.pop().close()
+        except BaseException:  # noqa: BLE001
+            pass
 
 
 def run_history(ctx, ops, allow_known=False):
